@@ -24,14 +24,16 @@ fn cell(idx: u64, rec: &mut Rec) {
     // 5: the Location is the very URI that was just requested (a cookie bounce): the table applies all the same
     // 6: an interim 103 with fields, seen in two looks, comes first and nothing follows the 3xx message in the window;
     // 7: the chunked body of the 3xx is written with blanks in front of its chunk extensions
-    let variant = take(8);
+    // 8, 9: an https request sent on to plain http, on the same host and on another one: the table knows
+    // statuses and methods, not schemes
+    let variant = take(10);
     if v10 && !http10_method(method) {
         return;
     }
     if variant == 1 && !needs_body(method) {
         return;
     }
-    let mut cfg = ReqCfg::new(method, "http://a.test/start/here?x=1");
+    let mut cfg = ReqCfg::new(method, if variant >= 8 { "https://a.test/start/here?x=1" } else { "http://a.test/start/here?x=1" });
     if v10 {
         cfg.ver = Ver::V10;
     }
@@ -54,6 +56,9 @@ fn cell(idx: u64, rec: &mut Rec) {
         format!("HTTP/1.1 {} Moved\r\nX-No: location\r\n", status).into_bytes()
     } else if variant == 4 {
         format!("HTTP/1.1 {} Moved\r\nLocation: https://b.test/next/place\r\n", status).into_bytes()
+    } else if variant >= 8 {
+        rec.cov("https-sent-on-to-http");
+        format!("HTTP/1.1 {} Moved\r\nLocation: http://{}.test/next/place\r\n", status, if variant == 8 { "a" } else { "b" }).into_bytes()
     } else if variant == 5 {
         rec.cov("redirect-to-the-same-uri");
         format!("HTTP/1.1 {} Moved\r\nLocation: {}\r\n", status, if status % 2 == 0 { "http://a.test/start/here?x=1" } else { "/start/here?x=1" }).into_bytes()
@@ -230,13 +235,13 @@ impl Property for P {
         "C15"
     }
     fn rule(&self) -> String {
-        "exhaustive table: 9 methods x status 300..=399 x 2 auth policies x response body {none, Content-Length, chunked} x request version {1.1, 1.0 where the method exists} x {plain, Expect: 100-continue refused by this very 3xx, no Location field, an unsolicited 100 Continue first, a request loaded with explicit Host + cookie + its own framing header redirected to another authority, a Location that is the very URI just requested}. Each cell runs a real exchange to the end and compares: redirect state entered <=> 3xx and not 304, Redirect.status() == status, as_new_flow outcome and new method == the table of the statement. class = (307/308 | other 3xx) x method x outcome. Two more variants: an interim 103 seen in two looks with nothing behind the 3xx message; blanks before the chunk extensions of the 3xx body.".into()
+        "exhaustive table: 9 methods x status 300..=399 x 2 auth policies x response body {none, Content-Length, chunked} x request version {1.1, 1.0 where the method exists} x {plain, Expect: 100-continue refused by this very 3xx, no Location field, an unsolicited 100 Continue first, a request loaded with explicit Host + cookie + its own framing header redirected to another authority, a Location that is the very URI just requested}. Each cell runs a real exchange to the end and compares: redirect state entered <=> 3xx and not 304, Redirect.status() == status, as_new_flow outcome and new method == the table of the statement. class = (307/308 | other 3xx) x method x outcome. Four more variants: an https request sent on to plain http (same host, other host); an interim 103 seen in two looks with nothing behind the 3xx message; blanks before the chunk extensions of the 3xx body.".into()
     }
     fn assumptions(&self) -> Vec<String> {
         vec!["the table is restated from the property text in wire::redirect_method".into()]
     }
     fn workloads(&self, _tier: Tier) -> Vec<Workload> {
-        vec![Workload::new("table", 9 * 100 * 2 * 3 * 2 * 8, true, "full product; HTTP/1.0 cells for methods that do not exist in 1.0 are skipped")]
+        vec![Workload::new("table", 9 * 100 * 2 * 3 * 2 * 10, true, "full product; HTTP/1.0 cells for methods that do not exist in 1.0 are skipped")]
     }
     fn run_case(&self, _wl: &str, idx: u64, _seed: u64, rec: &mut Rec) {
         cell(idx, rec)
@@ -256,6 +261,7 @@ impl Property for P {
             ("second-hop/followed".into(), 500),
             ("after-an-interim-103-seen-in-two-looks".into(), 500),
             ("chunked-3xx-body-with-blanks-before-extensions".into(), 500),
+            ("https-sent-on-to-http".into(), 1000),
         ]
     }
 }
